@@ -209,11 +209,16 @@ type defCase struct {
 	LongBad [][2]int `json:"long_bad,omitempty"`
 	Mol     int8     `json:"mol"`
 	WithCo  bool     `json:"complementor"`
+	// Wide (case-sensitive definitions only): the pairing is written for both cases, as the built-in ones
+	// are, although the alphabet holds only the letters of the definition; the other-case pairs lie
+	// outside the alphabet
+	Wide bool `json:"wide_pairing,omitempty"`
 }
 
 func genDef(t *rapid.T) defCase {
 	c := defCase{Cased: rapid.Bool().Draw(t, "cased"), Gap: rapid.IntRange(0, 255).Draw(t, "gap"), Ambig: rapid.IntRange(0, 255).Draw(t, "ambig"),
 		Mol: int8(rapid.IntRange(-1, 2).Draw(t, "mol")), WithCo: rapid.Bool().Draw(t, "complementor")}
+	c.Wide = c.Cased && rapid.Bool().Draw(t, "wide-pairing")
 	n := rapid.IntRange(1, 20).Draw(t, "n")
 	seen := map[byte]bool{}
 	var b []byte
@@ -284,6 +289,27 @@ func (c defCase) pairing() (s, p string) {
 		// both cases written out, case to case
 		sb, pb = append(sb, lower(x)), append(pb, lower(y))
 		sb, pb = append(sb, upper(x)), append(pb, upper(y))
+	}
+	if c.Cased && c.Wide {
+		inDef := map[byte]bool{}
+		for i := 0; i < len(c.Letters); i++ {
+			inDef[c.Letters[i]] = true
+		}
+		swap := func(b byte) byte {
+			if b >= 'a' && b <= 'z' {
+				return upper(b)
+			}
+			return lower(b)
+		}
+		for i, j := range c.Perm {
+			x, y := c.Letters[i], c.Letters[j]
+			if !isLetter(x) || !isLetter(y) {
+				continue
+			}
+			if x2, y2 := swap(x), swap(y); !inDef[x2] && !inDef[y2] {
+				sb, pb = append(sb, x2), append(pb, y2)
+			}
+		}
 	}
 	return string(sb), string(pb)
 }
